@@ -428,7 +428,7 @@ def c17_failures(name, ad, c, rng):
 DATA_KEYS = ("inp", "zinp", "lon", "lat")
 DATA_CARRIERS = ["list_none", "list_nan", "tuple_none", "float32", "int64", "masked_nan", "masked_hidden", "series", "dask"]
 TIME_CARRIERS = ["dt64_s", "dt64_ms", "dt64_us", "pydatetime", "timestamps", "dtindex", "series", "series_utc",
-                 "dtindex_utc", "epoch_s_list", "epoch_s_array"]
+                 "dtindex_utc", "epoch_s_list", "epoch_s_array", "epoch_s_int32", "epoch_s_int64", "epoch_s_uint32"]
 SPAN_KEYS = ("fail_span", "suspect_span", "valid_span", "bbox")
 
 
@@ -486,6 +486,23 @@ def convert_time(t, carrier):
         if np.any(ns % per):
             return t, False
         return t.astype(f"datetime64[{unit}]"), True
+    if carrier in ("epoch_s_list", "epoch_s_array", "epoch_s_int32", "epoch_s_int64", "epoch_s_uint32"):
+        whole = not np.any(ns % 10 ** 9)
+        if carrier in ("epoch_s_int32", "epoch_s_int64", "epoch_s_uint32"):
+            # whole epoch seconds in an integer array (int32 is the usual netCDF time type)
+            secs = ns // 10 ** 9
+            dt = carrier.split("_")[2]
+            if not whole or (secs.size and (secs.min() < (0 if dt == "uint32" else -2 ** 31) or secs.max() >= 2 ** 31)):
+                return t, False
+            return secs.astype(dt), True
+        if whole:
+            secs = (ns // 10 ** 9).tolist()
+            return (secs if carrier == "epoch_s_list" else np.array(secs, dtype="float64")), True
+        # fractional epoch seconds, when a float holds them exactly (0.5 s, 0.25 s, ms below 2^53 ns ...)
+        fl = [int(v) / 1e9 for v in ns.tolist()]
+        if any(F(x) * 10 ** 9 != int(v) for x, v in zip(fl, ns.tolist())):
+            return t, False
+        return (fl if carrier == "epoch_s_list" else np.array(fl, dtype="float64")), True
     if np.any(ns % 1000):
         return t, False
     idx = pd.DatetimeIndex(t)
@@ -501,11 +518,6 @@ def convert_time(t, carrier):
         return pd.Series(idx.tz_localize("UTC")), True
     if carrier == "dtindex_utc":
         return idx.tz_localize("UTC"), True
-    if carrier in ("epoch_s_list", "epoch_s_array"):
-        if np.any(ns % 10 ** 9):
-            return t, False
-        secs = (ns // 10 ** 9).tolist()
-        return (secs if carrier == "epoch_s_list" else np.array(secs, dtype="float64")), True
     raise ValueError(carrier)
 
 
@@ -636,6 +648,54 @@ def integer_series_failures(name, ad, c, also=()):
             fails.append({"kind": "predicate", "function": name, "case": c, "impl": base, "impl_carrier": got,
                           "carrier": {"data": dc},
                           "clause": f"an integer-typed series ({dc}) does not give the flags of the same numbers as float64"})
+    return n_eval, fails
+
+
+# tests that document N-D support (they flatten their input and reshape the flags); the profile tests
+# (density inversion, pressure), attenuated_signal_test and speed_test are one-dimensional by nature
+ND_TESTS = ("gross_range_test", "valid_range_test", "spike_test", "rate_of_change_test", "location_test",
+            "flat_line_test", "climatology_test")
+
+
+def nd_layout_failures(name, ad, c):
+    """the same series given as a 2-D array (2 x n/2) in C order and in Fortran (column-major) memory order: the
+    flags must come back in the input's shape, element for element those of the flattened (C order) series"""
+    import numpy as np
+    base, _ = ad.impl(c)
+    if flags_of(base) is None:
+        return 0, []
+    fails, n_eval = [], 0
+    for layout in ("C", "F"):
+        applied = {"n": 0}
+
+        def tr(kw, layout=layout, applied=applied):
+            arrs = {k: v for k, v in kw.items() if k in DATA_KEYS + ("tinp",) and isinstance(v, np.ndarray)
+                    and not isinstance(v, np.ma.MaskedArray) and v.ndim == 1}
+            sizes = {v.size for v in arrs.values()}
+            if len(sizes) != 1:
+                return kw
+            n = sizes.pop()
+            if n < 4 or n % 2:
+                return kw
+            for k, v in arrs.items():
+                a = v.reshape(2, n // 2)
+                kw[k] = np.asfortranarray(a) if layout == "F" else a
+            kw["__expect_shape__"] = (2, n // 2)
+            applied["n"] += 1
+            return kw
+        core.KW_TRANSFORM = tr
+        try:
+            got, _ = ad.impl(c)
+        finally:
+            core.KW_TRANSFORM = None
+        if not applied["n"]:
+            continue
+        n_eval += 1
+        if got != base:
+            fails.append({"kind": "predicate", "function": name, "case": c, "impl": base, "impl_2d": got,
+                          "layout": layout,
+                          "clause": f"a 2-D input in {layout} memory order does not get, element for element, the flags of the "
+                                    "flattened series (in the input's shape)"})
     return n_eval, fails
 
 
